@@ -177,10 +177,15 @@ def r7_1(prog, rep, pp):
                     t = taints.get(f.name) or set()
                     value = getattr(stmt, "value", None)
                     data_dep = value is not None and bool(DF._names_loaded(value) & t)
-                    ok = g is not None or not data_dep
+                    closed = False
+                    if g is not None:
+                        wf = f if "ifnode" in g and any(g["ifnode"] is x for r_ in DF.function_nodes(f) for x in ast.walk(r_)) else g.get("sites", [(f, None)])[0][0]
+                        closed, _why = pp.guard_closed(cls, wf, g)
+                    ok = (g is not None and closed) or not data_dep
                     obl(rep, f, stmt, "R7.1", ok, construct,
                         "stateful transform: " + ("under its fit-once guard" if g is not None else "copies an argument of the call (not fitted from data; idempotent per call site)"),
-                        "a stateful transform rewrites fitted state on every evaluation: earlier results and later evaluations depend on the history")
+                        "a stateful transform rewrites fitted state on later evaluations (no fit-once guard, or the guard is never closed): "
+                        "earlier results and later evaluations depend on the history")
                     continue
                 if cls.name == "LazyCall" and attr == "stateful_transform":
                     g = pp.guard_of(f, stmt)
